@@ -578,3 +578,31 @@ def c20_process_state(tier="quick", seed=0):
     """lastIndex is the only state of a RegExp object: no cache of regex objects or compiled patterns in the process (the analysis of C12)"""
     from contracts.C12_context import process_state
     return process_state("C20", tier, seed)
+
+
+@groups.group(id="C20.bounded.literal-sites", prop="C20", kind="B", functions=["microjs.vm:VM._execute_opcode[BUILD_REGEX]"])
+def c20_literal_sites(tier="quick", seed=0):
+    """a regex literal makes a new RegExp object, with lastIndex 0, every time it is evaluated: the same site in a function
+    called twice, in a loop body, in a callback, across evaluations of one context"""
+    from microjs import Context
+    progs = [
+        ("function f(s){ var r = /a/g; return r.test(s) } [f('a'), f('a'), f('a')].join()", "true,true,true"),
+        ("function f(){ var r = /a/g; r.exec('aa'); return r.lastIndex } [f(), f()].join()", "1,1"),
+        ("var out = []; for (var i = 0; i < 3; i++) { var r = /a/y; out.push(r.test('ab') + ':' + r.lastIndex); } out.join()", "true:1,true:1,true:1"),
+        ("function mk(){ return /x/g } var a = mk(), b = mk(); a.lastIndex = 5; (a !== b) + '|' + b.lastIndex", "true|0"),
+        ("['aa', 'aa'].map(function (s) { var r = /a/g; r.test(s); return r.lastIndex }).join()", "1,1"),
+        ("function g(){ return /a/g.test('a') } [g(), g()].join()", "true,true"),
+        ("function h(s){ return s.replace(/a/g, '-') + /a/g.lastIndex } [h('aa'), h('aa')].join()", "--0,--0"),
+        ("function k(){ var r = /a/gy; return [r.test('aab'), r.test('aab'), r.test('aab'), r.lastIndex].join(':') } [k(), k()].join()", "true:true:false:0,true:true:false:0"),
+    ]
+    bad = None
+    c = Context(time_limit=10)
+    for src, want in progs + [(p[0], p[1]) for p in progs]:      # (each also a second time in the same context)
+        try:
+            got = c.eval(src)
+        except Exception as e:  # noqa
+            got = "!" + type(e).__name__ + ": " + str(e)[:60]
+        if got != want and bad is None:
+            bad = (src, got, want)
+    return [ob("C20.bounded.literal-sites", bad is None, "B", f"{2 * len(progs)} programs" if bad is None else f"{bad[0]} -> {bad[1]!r}, expected {bad[2]!r}",
+               witness=(bad[0] if bad else None), confirmed=True if bad else None, domain=2 * len(progs))]
